@@ -20,6 +20,7 @@ type variant struct {
 	splitPacked  bool // packed lists split into several runs, mixed with unpacked elements
 	dupSingular  bool // singular scalar preceded by another occurrence with a different value (last wins)
 	splitMsg     bool // singular message field split over two occurrences (merge)
+	splitEmpty   bool // with splitMsg: cut at the very start or the very end, so that one of the occurrences is empty
 	oneofMulti   bool // another member of the oneof before the real one (last wins)
 	mapShape     int  // 0 normal, 1 value-then-key, 2 omit zero key, 3 omit zero value, 4 duplicate key (first with other value)
 	explicitZero bool // implicit-presence fields holding zero are written explicitly
@@ -35,6 +36,7 @@ var variantFamilies = []variant{
 	{family: "splitpacked", splitPacked: true},
 	{family: "dupsingular", dupSingular: true},
 	{family: "splitmsg", splitMsg: true},
+	{family: "splitmsg-empty", splitMsg: true, splitEmpty: true},
 	{family: "oneofmulti", oneofMulti: true},
 	{family: "mapswap", mapShape: 1},
 	{family: "mapomitkey", mapShape: 2},
@@ -283,7 +285,23 @@ func (e *venc) message(m protoreflect.Message, depth int) []byte {
 			if e.v.splitMsg {
 				// split the sub-message's own field occurrences into two occurrences of the parent field
 				fs, err := refwire.Walk(full)
-				if err == nil && len(fs) >= 2 {
+				if e.v.splitEmpty && err == nil && len(full) > 0 {
+					// an empty occurrence before, after, or before and after the complete one (also three occurrences)
+					key := refwire.AppendKey(nil, int(fd.Number()), refwire.WTLen)
+					emptyOcc := refwire.AppendLen(append([]byte(nil), key...), nil)
+					fullOcc := refwire.AppendLen(append([]byte(nil), key...), full)
+					switch e.r.Intn(3) {
+					case 0:
+						chunks = append(chunks, append(fullOcc, emptyOcc...))
+					case 1:
+						chunks = append(chunks, append(emptyOcc, fullOcc...))
+					default:
+						chunks = append(chunks, append(append(append([]byte(nil), emptyOcc...), fullOcc...), emptyOcc...))
+					}
+					e.applied++
+					continue
+				}
+				if !e.v.splitEmpty && err == nil && len(fs) >= 2 {
 					cut := fs[len(fs)/2].Start
 					chunks = append(chunks,
 						refwire.AppendLen(refwire.AppendKey(nil, int(fd.Number()), refwire.WTLen), full[:cut]),
